@@ -1192,3 +1192,137 @@ def add_model_ops_3(cat, Op):
 
     for d, n in ((2, 8), (2, 9), (3, 6)):
         add(f"model:C04:indexing-fits[D={d},N={n}]", lambda pool, d=d, n=n: _xy(pool, d, n), ["exponax.make_grid", "exponax.spectral"], f"fine{d}", cost=1)
+
+
+def add_model_ops_4(cat, Op):
+    """C03 (alias-freeness against a finer grid), C08 (symmetries of the periodic box), C19 (finiteness, dtype, zero state)."""
+    import jax
+    import jax.numpy as jnp
+
+    import exponax as ex
+    from workload import _array_leaves, _field
+
+    def add(key, fn, exports, group, cost=2, atomic=False):
+        cat.add(Op(key, fn, tuple(exports), group, cost=cost, atomic=atomic))
+
+    # ------------------------------------------------------------------ C03: the same term evaluated on a grid twice as fine
+    def _alias_free(pool, n, which):
+        nf = ex.nonlin_fun
+        frac = 0.5 if which == "polynomial-cubic" else 2 / 3
+
+        def make(nn, fr):
+            dop = ex.spectral.build_derivative_operator(1, _L, nn)
+            if which == "convection":
+                return nf.ConvectionNonlinearFun(1, nn, derivative_operator=dop, dealiasing_fraction=fr)
+            if which == "convection-conservative":
+                return nf.ConvectionNonlinearFun(1, nn, derivative_operator=dop, dealiasing_fraction=fr, conservative=True)
+            if which == "gradient-norm":
+                return nf.GradientNormNonlinearFun(1, nn, derivative_operator=dop, dealiasing_fraction=fr)
+            if which == "general":
+                return nf.GeneralNonlinearFun(1, nn, derivative_operator=dop, dealiasing_fraction=fr, scale_list=(0.3, -1.0, 0.2))
+            return nf.PolynomialNonlinearFun(1, nn, dealiasing_fraction=fr, coefficients=(0.0, 1.0, -1.0, 0.5))
+
+        coarse, fine = make(n, frac), make(2 * n, frac / 2)
+        uh = ex.fft(_field(1, 1, n), num_spatial_dims=1) * coarse.dealiasing_mask
+        kept = int(np.max(np.nonzero(np.asarray(coarse.dealiasing_mask)[0])[0]))
+        uh_fine = jnp.zeros((1, n + 1), dtype=uh.dtype).at[:, : kept + 1].set(2.0 * uh[:, : kept + 1])
+        got = coarse(uh)
+        want = fine(uh_fine)[:, : n // 2 + 1] / 2.0
+        want = want.at[:, kept + 1 :].set(0.0)
+        agree(got, want, f"{which}, N={n}: term on the retained band (|k| <= {kept}) vs the same term evaluated on a grid twice as fine; zero outside the band", 40)
+        return got
+
+    for which in ("convection", "convection-conservative", "gradient-norm", "general", "polynomial-cubic"):
+        for n in (12, 15, 16, 18, 24):
+            add(f"model:C03:alias-free[{which},N={n}]", lambda pool, n=n, which=which: _alias_free(pool, n, which), ["exponax.nonlin_fun"], "fine1", cost=1)
+
+    # ------------------------------------------------------------------ C08: symmetries
+    def _symmetry(pool, name):
+        out = []
+        if name == "translation":
+            for label, s in (
+                ("Burgers 2D N=9", ex.stepper.Burgers(2, _L, 9, _DT)), ("KS 2D N=8", ex.stepper.KuramotoSivashinsky(2, _L, 8, _DT)),
+                ("KdV 1D N=16", ex.stepper.KortewegDeVries(1, _L, 16, _DT)), ("NavierStokesVorticity N=8", ex.stepper.NavierStokesVorticity(2, _L, 8, _DT)),
+                ("Diffusion 3D N=6", ex.stepper.Diffusion(3, _L, 6, _DT)), ("GrayScott 1D", ex.stepper.reaction.GrayScott(1, _L, 16, _DT)),
+            ):  # fmt: skip
+                d = s.num_spatial_dims
+                u = _field(s.num_channels, d, s.num_points) * 0.5
+                shift = (2, 3, 1)[:d]
+                axes = tuple(range(1, d + 1))
+                got = s(jnp.roll(u, shift, axis=axes))
+                agree(got, jnp.roll(s(u), shift, axis=axes), f"{label}: step of the translated state vs translated step", 20)
+                out.append(got)
+        elif name == "axis-permutation":
+            for label, s, vector in (
+                ("KS 2D N=9", ex.stepper.KuramotoSivashinsky(2, _L, 9, _DT), False), ("Diffusion 2D N=8", ex.stepper.Diffusion(2, _L, 8, _DT), False),
+                ("FisherKPP 2D N=8", ex.stepper.reaction.FisherKPP(2, _L, 8, _DT), False), ("Burgers 2D N=9", ex.stepper.Burgers(2, _L, 9, _DT), True),
+                ("KdV 2D N=9", ex.stepper.KortewegDeVries(2, _L, 9, _DT), True),
+            ):  # fmt: skip
+                u = _field(s.num_channels, 2, s.num_points) * 0.5
+                perm = (lambda a: a[::-1].transpose(0, 2, 1)) if vector else (lambda a: a.transpose(0, 2, 1))
+                got = s(perm(u))
+                agree(got, perm(s(u)), f"{label}: step of the axis-permuted state vs permuted step", 20)
+                out.append(got)
+        else:
+            for label, s2, s1 in (
+                ("Diffusion", ex.stepper.Diffusion(2, _L, 16, _DT), ex.stepper.Diffusion(1, _L, 16, _DT)),
+                ("KS", ex.stepper.KuramotoSivashinsky(2, _L, 16, _DT), ex.stepper.KuramotoSivashinsky(1, _L, 16, _DT)),
+                ("Dispersion N=15", ex.stepper.Dispersion(2, _L, 15, _DT), ex.stepper.Dispersion(1, _L, 15, _DT)),
+            ):
+                n = s1.num_points
+                u1 = bl_field(1, 1, n) * 0.5
+                u2 = jnp.broadcast_to(u1[:, :, None], (1, n, n))
+                got = s2(u2)
+                agree(got, jnp.broadcast_to(s1(u1)[:, :, None], (1, n, n)), f"{label}: 2D stepper on a state constant along the second axis vs the 1D stepper", 20)
+                out.append(got)
+        return out
+
+    for name in ("translation", "axis-permutation", "embedding"):
+        add(f"model:C08:{name}", lambda pool, name=name: _symmetry(pool, name), ["exponax.stepper"], "symmetry", cost=4)
+
+    # ------------------------------------------------------------------ C19: finite, session dtype, zero state
+    def _stiff(pool):
+        real = jnp.zeros(()).dtype
+        lam = -jnp.asarray([0.0, 1e-3, 1.0, 1e3, 1e6, 1e9, 1e12, 1e15])[None]
+        out = []
+        nl = ex.nonlin_fun.ZeroNonlinearFun(1, 14)
+        uh = jnp.ones((1, 8), dtype=jnp.result_type(real, 1j))
+        for label, lin in (("real", lam + 0j), ("complex", lam * (1 + 0.5j)), ("complex-conj", lam * (1 - 2j))):
+            for cls in (ex.etdrk.ETDRK1, ex.etdrk.ETDRK2, ex.etdrk.ETDRK3, ex.etdrk.ETDRK4):
+                integ = cls(1.0, lin, nl)
+                for leaf in _array_leaves(integ):
+                    if not bool(jnp.all(jnp.isfinite(leaf))):
+                        raise ModelMismatch(f"{cls.__name__} with a {label} symbol up to |lambda dt| = 1e15: a coefficient is not finite")
+                v = integ.step_fourier(uh)
+                if not bool(jnp.all(jnp.isfinite(v))):
+                    raise ModelMismatch(f"{cls.__name__} with a {label} symbol: the step is not finite")
+                out.append(v)
+        return out
+
+    add("model:C19:stiff-coefficients-finite", _stiff, [f"exponax.etdrk.ETDRK{p}" for p in (1, 2, 3, 4)], "etdrk", cost=2)
+
+    def _dtype_zero(pool):
+        want = jnp.zeros(()).dtype
+        out = []
+        for label, s, forced in (
+            ("Burgers", ex.stepper.Burgers(1, _L, 16, _DT), False), ("KdV order 4", ex.stepper.KortewegDeVries(1, _L, 16, _DT, order=4), False),
+            ("KS 2D", ex.stepper.KuramotoSivashinsky(2, _L, 8, _DT), False), ("Diffusion 3D", ex.stepper.Diffusion(3, _L, 6, _DT), False),
+            ("GrayScott", ex.stepper.reaction.GrayScott(1, _L, 16, _DT), None), ("KolmogorovFlowVorticity", ex.stepper.KolmogorovFlowVorticity(2, _L, 9, _DT, injection_mode=2), True),
+            ("NormalizedConvection", ex.stepper.generic.NormalizedConvectionStepper(1, 16), False),
+        ):  # fmt: skip
+            u = _field(s.num_channels, s.num_spatial_dims, s.num_points)
+            v = s(u)
+            if v.dtype != want:
+                raise ModelMismatch(f"{label}: result dtype {v.dtype}, session default {want}")
+            for leaf in _array_leaves(s):
+                if jnp.issubdtype(leaf.dtype, jnp.inexact) and jnp.finfo(leaf.dtype).eps != jnp.finfo(want).eps:
+                    raise ModelMismatch(f"{label}: a stored array has dtype {leaf.dtype} in a {want} session")
+            z = s(jnp.zeros_like(u))
+            if not bool(jnp.all(jnp.isfinite(z))):
+                raise ModelMismatch(f"{label}: the zero state maps to a non-finite state")
+            if forced is False:
+                agree(z, jnp.zeros_like(u), f"{label}: the zero state maps to zero", 1, absolute=1e-30)
+            out += [v, z]
+        return out
+
+    add("model:C19:dtype-and-zero-state", _dtype_zero, ["exponax.stepper"], "etdrk", cost=3)
